@@ -242,6 +242,10 @@ def normalize(res, sc, tid):
                        'sub': e['sub'] + 1})
         elif k == 'Status':
             ev.append({'e': 'Status', 'x': X(e), 'st': e.get('status', '')})
+        elif k == 'AnnounceBegin':
+            ev.append({'e': 'AnnBegin', 'x': X(e)})
+        elif k in ('CtlCancelBegin', 'CtlCancelEnd', 'CtlWaitKbi'):
+            ev.append({'e': k})
         elif k == 'CancelBegin':
             # coordinator-level cancel (linearization point of every entry)
             ev.append({'e': 'CancelCall', 'how': cancel_how, 'x': X(e)})
